@@ -102,6 +102,10 @@ impl UserDefinedDataReader {
             return;
         };
         self.matched_publication_list.remove(i);
+        // Instances owned by the removed writer become available to the remaining writers
+        self.reader
+            .instance_ownership
+            .retain(|x| &x.owner_handle != publication_handle.as_ref());
 
         self.subscription_matched_status.current_count = self.matched_publication_list.len() as i32;
         self.subscription_matched_status.current_count_change -= 1;
